@@ -412,54 +412,212 @@ class Exec:
                 return n["n"]
         return "v%d" % vid
 
+    # ---- loops ---------------------------------------------------------------------------------------
+    # A counted loop has one primary induction variable (tested by the condition, stepped by the increment)
+    # and any number of DERIVED induction variables: locals whose value after one iteration is their value
+    # before it plus a loop-invariant amount on every path through the body (pointer walking, a second
+    # counter, `*p++` in a nested loop).  A derived variable is a closed form of the primary one inside the
+    # loop, and of the trip count after it.  A pointer used as the primary variable gets an integer counter.
+    @staticmethod
+    def _own_jumps(body):
+        """kinds of jump statements under body that belong to this loop (not to a nested loop)"""
+        found = set()
+
+        def go(n, in_switch):
+            if isinstance(n, list):
+                for x in n:
+                    go(x, in_switch)
+                return
+            if not isinstance(n, dict):
+                return
+            k = n.get("k")
+            if k in ("for", "while", "do", "forrange"):
+                for x in walk(n):
+                    if x.get("k") == "return":
+                        found.add("return")
+                return
+            if k == "continue":
+                found.add("continue")
+            elif k == "break" and not in_switch:
+                found.add("break")
+            elif k in ("return", "goto"):
+                found.add("return")
+            for v in n.values():
+                if isinstance(v, (dict, list)):
+                    go(v, in_switch or k == "switch")
+        go(body, False)
+        return found
+
+    def detect_derived(self, body, latch_nodes, vid, lv_term):
+        """{id: per-iteration increment} of the derived induction variables of a loop (see above)"""
+        asg, _ = assigned_ids([body] + latch_nodes)
+        cands = [i for i in asg if i != vid and i in self.env and
+                 not (isinstance(self.env[i], tuple) and self.env[i][0] in ("cell", "alias", "unk"))]
+        if not cands:
+            return {}
+        jumps = self._own_jumps(body)
+        env0, mem0 = dict(self.env), dict(self.mem)
+        self.havoc([body] + latch_nodes)
+        marks = {}
+        for i in cands:
+            marks[i] = sym.sym("$entry:%d" % i)
+            self.env[i] = marks[i]
+        if vid is not None:
+            self.env[vid] = lv_term
+        scratch = []
+        try:
+            self.block(body, scratch)
+            after_body = {i: self.env.get(i) for i in cands}
+            for q in latch_nodes:
+                self.ev(q, scratch, stmt=True)
+            fin = {i: self.env.get(i) for i in cands}
+        finally:
+            self.env = env0
+            self.mem.clear()
+            self.mem.update(mem0)
+        res = {}
+        bad_atoms = set(marks.values())
+        if lv_term is not None:
+            bad_atoms.add(lv_term)
+        def invariant(t):
+            return not any(st in bad_atoms or (st[0] == "var" and len(st) > 2 and st[2] in asg) or st[0] == "unk"
+                           for st in sym.subterms(t))
+        for i in cands:
+            f = fin[i]
+            if f is None or ("continue" in jumps and after_body[i] != marks[i]):
+                continue
+            g = f
+            while g[0] == "cast":
+                g = g[2]
+            if g[0] == "op" and g[1] in ("<<", ">>") and g[2] == marks[i] and invariant(g[3]):
+                # x <<= c  (x >>= c): after k iterations x is entry << c*k -- the bits shifted out are lost either way
+                res[i] = ("shl" if g[1] == "<<" else "shr", g[3])
+                continue
+            base, off = sym.ptr_split(f)
+            if base == marks[i]:
+                delta = off
+            else:
+                lin = sym.linear_in(f, marks[i]) if sym.contains(f, marks[i]) else None
+                if lin is None or lin[0] != I(1):
+                    continue
+                delta = lin[1]
+            if not invariant(delta):
+                continue
+            res[i] = ("add", delta)
+        return res
+
+    @staticmethod
+    def _per_step(delta, step):
+        """delta / step as a term when that is exact, else None"""
+        if step == I(1):
+            return delta
+        if step == I(-1):
+            return sym.neg(delta)
+        if delta == step:
+            return I(1)
+        cd, cs = sym.const_value(delta), sym.const_value(step)
+        if cd is not None and cs not in (None, 0) and cd % cs == 0:
+            return I(cd // cs)
+        return None
+
+    def _is_ptr_ref(self, a):
+        return strip_cv(a.get("t", "")).endswith("*")
+
+    def _bind_derived(self, derived, entry, count):
+        for i, (kind, d) in derived.items():
+            off = sym.mul(d, count)
+            e0 = entry[i]
+            if kind == "add":
+                self.env[i] = sym.padd(e0, off) if self._ptr_ids.get(i) else sym.add(e0, off)
+            else:
+                self.env[i] = sym.binop("<<" if kind == "shl" else ">>", e0, off)
+
     def do_for(self, node, out):
         init, cond, inc, body = node.get("init"), node.get("c"), node.get("inc"), node.get("body")
+        parts = []
+
+        def flat_comma(nd):
+            if isinstance(nd, dict) and nd.get("k") == "bin" and nd.get("op") == ",":
+                flat_comma(nd["a"]); flat_comma(nd["b"])
+            elif nd is not None:
+                parts.append(nd)
+        flat_comma(inc)
+
+        def is_step(q, want=None):
+            if not isinstance(q, dict) or not isinstance(q.get("a"), dict) or q["a"].get("k") != "ref":
+                return False
+            if want is not None and q["a"].get("id") != want:
+                return False
+            return (q.get("k") == "un" and q.get("op") in ("++", "--")) or \
+                (q.get("k") == "assign" and q.get("op") in ("+=", "-="))
         # recognise canonical induction: one variable, affine bound, constant step
         var = None
-        if init and init.get("k") == "decl" and len(init["d"]) == 1 and init["d"][0].get("init") is not None:
+        init_done = False
+        if init and init.get("k") == "decl" and len(init["d"]) == 1 and init["d"][0].get("init") is not None \
+                and any(is_step(q, init["d"][0]["id"]) for q in parts):
             var = init["d"][0]
             lo = self.ev(var["init"], out)
             vid, vname = var["id"], var["n"]
-        elif init and init.get("k") == "assign" and init.get("op") == "=" and init["a"].get("k") == "ref":
+        elif init and init.get("k") == "assign" and init.get("op") == "=" and init["a"].get("k") == "ref" \
+                and any(is_step(q, init["a"].get("id")) for q in parts):
             vid, vname = init["a"]["id"], init["a"]["n"]
             lo = self.ev(init["b"], out)
             var = init["a"]
-        elif init is None and inc is not None:
-            # for (; i < n; ++i) with i defined before
-            tgt = inc.get("a") if inc.get("k") in ("un", "assign") else None
-            if isinstance(tgt, dict) and tgt.get("k") == "ref" and tgt.get("id") in self.env:
-                vid, vname = tgt["id"], tgt["n"]
-                lo = self.env[vid]
-                var = tgt
+        elif parts and cond is not None:
+            # general form: run the initialisation, then take as primary the stepped variable the condition tests
+            cond_ids = {n.get("id") for n in walk(cond) if n.get("k") == "ref"}
+            cand = [q for q in parts if is_step(q) and q["a"].get("id") in cond_ids]
+            if len({q["a"]["id"] for q in cand}) == 1 and len(cand) == 1:
+                if init is not None:
+                    if init.get("k") == "decl":
+                        self.block(init, out)
+                    else:
+                        self.ev(init, out, stmt=True)
+                    init_done = True
+                tgt = cand[0]["a"]
+                if self._tracked_ref(tgt):
+                    vid, vname = tgt["id"], tgt["n"]
+                    lo = self.env[vid]
+                    var = tgt
         step = None
         latch_nodes = []
-        if var is not None and inc is not None and inc.get("k") == "bin" and inc.get("op") == ",":
-            # for (...; ...; i++, other): the induction step plus expressions executed at the loop latch (also after `continue`)
-            parts = []
-            def flat_comma(nd):
-                if isinstance(nd, dict) and nd.get("k") == "bin" and nd.get("op") == ",":
-                    flat_comma(nd["a"]); flat_comma(nd["b"])
-                else:
-                    parts.append(nd)
-            flat_comma(inc)
-            steps = [q for q in parts if isinstance(q, dict) and ((q.get("k") == "un" and q.get("op") in ("++", "--") and q["a"].get("id") == vid) or
-                                                                  (q.get("k") == "assign" and q["a"].get("id") == vid and q.get("op") in ("+=", "-=")))]
+        if var is not None:
+            steps = [q for q in parts if is_step(q, vid)]
             if len(steps) == 1:
                 latch_nodes = [q for q in parts if q is not steps[0]]
-                inc = steps[0]
-        if var is not None and inc is not None:
-            if inc.get("k") == "un" and inc.get("op") in ("++", "--") and inc["a"].get("id") == vid:
-                step = I(1 if inc["op"] == "++" else -1)
-            elif inc.get("k") == "assign" and inc["a"].get("id") == vid and inc.get("op") in ("+=", "-="):
-                s = self.ev(inc["b"], out)
-                step = s if inc["op"] == "+=" else sym.neg(s)
+                q = steps[0]
+                if q.get("k") == "un":
+                    step = I(1 if q["op"] == "++" else -1)
+                else:
+                    sv = self.ev(q["b"], out)
+                    step = sv if q["op"] == "+=" else sym.neg(sv)
         body_asg, _ = assigned_ids([body] + latch_nodes)
-        ok = var is not None and step is not None and cond is not None and vid not in body_asg
+        is_ptr = var is not None and self._is_ptr_ref(var)
+        ok = var is not None and step is not None and cond is not None and vid not in body_asg and \
+            not (is_ptr and step not in (I(1), I(-1)))
         self.dry_forget([cond, inc, body] if not ok else [body] + latch_nodes)
         if ok:
+            if is_ptr:
+                # pointer walking: an integer counter is the induction variable, the pointer is lo + step*counter
+                lv = sym.sym("%s#@%d" % (vname, node["l"]))
+                ptr_of = lambda c_: sym.padd(lo, sym.mul(step, c_))
+                eff_lo, eff_step = ZERO, I(1)
+                lv_for_detect = ptr_of(lv)
+            else:
+                lv = sym.sym("%s@%d" % (vname, node["l"]))
+                eff_lo, eff_step = lo, step
+                lv_for_detect = lv
+            derived = self.detect_derived(body, latch_nodes, vid, lv_for_detect)
+            per = {i: self._per_step(d, eff_step) for i, (kind, d) in derived.items()}
+            derived = {i: (derived[i][0], per[i]) for i in derived if per[i] is not None}
+            entry = {i: self.env[i] for i in derived}
+            self._ptr_ids = getattr(self, "_ptr_ids", {})
+            for n_ in walk([body] + latch_nodes):
+                if n_.get("k") == "ref" and n_.get("id") in derived:
+                    self._ptr_ids[n_["id"]] = self._is_ptr_ref(n_)
             self.havoc([body] + latch_nodes)
-            lv = sym.sym("%s@%d" % (vname, node["l"]))
-            self.env[vid] = lv
+            self.env[vid] = lv_for_detect
+            self._bind_derived(derived, entry, sym.sub(lv, eff_lo))
             c = self.ev(cond, out)
             cmpop, hi = None, None
             if c[0] == "op" and c[1] in ("<", "<=", ">", ">=", "!="):
@@ -468,7 +626,7 @@ class Exec:
                     cmpop, hi = c[1], c[3]
                 elif c[3] == lv:
                     cmpop, hi = flip[c[1]], c[2]
-                elif c[1] != "!=":
+                else:
                     # i + d < n  (the induction variable with a constant offset, integer arithmetic without wrap):
                     # normalise to i < n - d
                     lin = sym.linear_in(sym.sub(c[2], c[3]), lv)
@@ -476,26 +634,44 @@ class Exec:
                         cmpop, hi = c[1], sym.neg(lin[1])
                     elif lin is not None and lin[0] == I(-1):
                         cmpop, hi = flip[c[1]], lin[1]
+                if cmpop == "!=":
+                    # i != hi with a unit step: the loop stops when it reaches hi (overshooting is undefined
+                    # behaviour for pointers and signed counters, and is not considered)
+                    cs = sym.const_value(eff_step)
+                    cmpop = "<" if cs == 1 else ">" if cs == -1 else None
             if cmpop is not None and not sym.contains(hi, lv):
                 b = []
                 st = self.block(body, b)
                 latch = []
                 for q in latch_nodes:
                     self.ev(q, latch, stmt=True)
-                eff = {"e": "loop", "var": lv, "lo": lo, "cmp": cmpop, "hi": hi, "step": step, "body": b,
+                eff = {"e": "loop", "var": lv, "lo": eff_lo, "cmp": cmpop, "hi": hi, "step": eff_step, "body": b,
                        "l": node["l"], "name": vname}
                 if latch:
                     eff["latch"] = latch
+                if derived:
+                    eff["derived"] = {self._name_of(i): d for i, (kind, d) in derived.items()}
+                if is_ptr:
+                    eff["pointer"] = lo
                 if st in ("return", "exit"):
                     eff["body_exits"] = True
                 out.append(eff)
                 self.forget_stores_in(b + latch)
                 self.havoc([body] + latch_nodes)
-                self.env[vid] = loop_end(eff) if not eff.get("body_exits") else ("var", vname, vid)
+                jumps = self._own_jumps(body)
+                if not eff.get("body_exits") and not ({"break", "return"} & jumps):
+                    end = loop_end(eff)
+                    self.env[vid] = ptr_of(end) if is_ptr else end
+                    self._bind_derived(derived, entry, sym.sub(end, eff_lo))
+                else:
+                    self.env[vid] = ("var", vname, vid)
                 return "fall"
             # complex condition (e.g. two-variable loops): fall through to generic form
+            self.env[vid] = lo
+            for i, e0 in entry.items():
+                self.env[i] = e0
         # generic
-        if init is not None:
+        if init is not None and not init_done:
             self.block(init, out)
         self.havoc([cond, inc, body])
         b = []
@@ -671,6 +847,13 @@ class Exec:
                     except ZeroDivisionError:
                         pass
                 return ("fop", op, a, b)
+            ta_, tb_ = strip_cv(e["a"].get("t", "")), strip_cv(e["b"].get("t", ""))
+            if op in ("<", ">", "<=", ">=", "==", "!=", "-") and (ta_.endswith("*") or ta_.endswith("]")) and \
+                    (tb_.endswith("*") or tb_.endswith("]")):
+                # two pointers into the same array: compare / subtract the element offsets
+                (pa, oa), (pb, ob) = sym.ptr_split(a), sym.ptr_split(b)
+                if pa == pb and (oa != ZERO or ob != ZERO):
+                    return sym.binop(op, oa, ob)
             if t.endswith("*") and op in ("+", "-"):
                 # pointer arithmetic
                 at = strip_cv(e["a"].get("t", ""))
